@@ -365,6 +365,12 @@ fn subsets(u: &[u32]) -> Vec<Vec<u32>> {
         .map(|mask| u.iter().enumerate().filter(|(i, _)| (mask >> i) & 1 == 1).map(|(_, x)| *x).collect())
         .collect()
 }
+fn duplists(u: &[u32]) -> Vec<Vec<u32>> {
+    if u.is_empty() { return vec![]; }
+    let mut a = u.to_vec(); a.push(u[0]);
+    let mut b: Vec<u32> = u.iter().rev().copied().collect(); b.extend_from_slice(u);
+    vec![vec![u[0], u[0]], a, b]
+}
 fn p_map_sets(m: &HashMap<u32, HashSet<u32>>) -> String {
     if m.is_empty() {
         return ".".to_string();
@@ -552,6 +558,10 @@ pub fn fields(g: &G, res: &[u32], u: &[u32], w: Option<i64>) -> Vec<(String, Str
     let before = compact(g);
     for (i, s) in subs.iter().enumerate() {
         f.push((format!("sub{}", i), compact(&g.get_subgraph(s))));
+    }
+    // node lists that name a node more than once (the argument is a slice, not a set)
+    for (i, s) in duplists(u).iter().enumerate() {
+        f.push((format!("subdup{}", i), compact(&g.get_subgraph(s))));
     }
     f.push(("rev".into(), p_res(g.reverse(), |r| compact(&r))));
     let wf = match w { None => f64::NAN, Some(x) => x as f64 };
